@@ -497,6 +497,8 @@ class Folder(FileSystemItemABC):
 
         def __call__(self, request: RequestFormat, context: Dict) -> bool:
             """Returns True if file exists."""
+            if len(request) < 1:
+                return False
             return self.folder.get_file(file_name=request[0]) is not None
 
         @property
@@ -516,6 +518,8 @@ class Folder(FileSystemItemABC):
 
         def __call__(self, request: RequestFormat, context: Dict) -> bool:
             """Returns True if file exists and is not deleted."""
+            if len(request) < 1:
+                return False
             file = self.folder.get_file(file_name=request[0])
             return file is not None and not file.deleted
 
